@@ -1,5 +1,167 @@
-import Banyan.Model.Util
-open Banyan
+import Banyan.Model.C15
+open Banyan Banyan.C15
 
-/- stub: model driver for C15 not built yet -/
-def main : IO Unit := runDriver fun _ => "bad-op"
+/-! Line protocol of the C15 model driver (same lines as hooks/banyand/internal/verifdrv/c15):
+
+    frame-enc <codec> <len> <sel> <col>...     encode then decode
+    frame-dec <codec> x<hex>                   decode arbitrary bytes
+    dispatch  E<0|1> S=.. F=.. R=.. EN=.. tp=.. fp=.. ob=.. gb=.. agg=.. top=..
+    par / dist ...                             not modelled (two Go pipelines are compared with each other): "skip"
+-/
+
+def codecOf : String → Option Codec
+  | "m" => some measureCodec
+  | "s" => some streamCodec
+  | _ => none
+
+def errName : Err → String
+  | .trunc => "trunc" | .magic => "magic" | .version => "version" | .type => "type"
+  | .role => "role" | .proto => "proto" | .nilBatch => "nil"
+
+def splitC (s : String) (c : Char) : List String := s.splitOn (String.singleton c)
+
+def hexBytes (s : String) : Option (List Byte) := bytesOfHexChars s.toList
+
+def parseCell (k : Kind) (isFloat : Bool) (s : String) : Option Cell :=
+  match s.toList with
+  | tag :: p =>
+    let null := tag == 'n'
+    let ps := String.ofList p
+    match k with
+    | .fixed =>
+      if isFloat then (hexBytes ps).map fun bs => ⟨null, .fixed (ofBE bs)⟩
+      else ps.toInt?.map fun i => ⟨null, .fixed (i % (W64 : Int)).toNat⟩
+    | .var => (hexBytes ps).map fun bs => ⟨null, .var bs⟩
+    | .ptr => if ps == "~" then some ⟨null, .ptr none⟩ else (hexBytes ps).map fun bs => ⟨null, .ptr (some bs)⟩
+    | .array => none
+  | [] => none
+
+def parseCol (s : String) : Option (ColDef × Column) :=
+  match splitC s ':' with
+  | [r, dt, ct, nm, fm, cells] => do
+    let role ← r.toNat? >>= Role.ofCode
+    let dtyp ← dt.toNat? >>= ColType.ofCode
+    let ctyp ← ct.toNat? >>= ColType.ofCode
+    let name ← hexBytes nm
+    let fam ← hexBytes fm
+    let cs ← if cells == "-" then some [] else (splitC cells ',').mapM (parseCell ctyp.kind (ctyp == .float64))
+    pure (⟨role, dtyp, name, fam⟩, ⟨ctyp, cs⟩)
+  | _ => none
+
+def parseSel (s : String) : Option (Option (List Nat)) :=
+  if s == "-" then some none
+  else if s == "e" then some (some [])
+  else ((splitC s ',').mapM String.toNat?).map some
+
+def showInt64 (u : Nat) : String :=
+  if u < W64 / 2 then toString u else "-" ++ toString (W64 - u)
+
+def showCell (t : ColType) (c : Cell) : String :=
+  if c.null then "n" else
+  match c.val with
+  | .fixed u => if t == .float64 then "v" ++ hexOfBytes (beBytes 8 u) else "v" ++ showInt64 u
+  | .var bs => "v" ++ hexOfBytes bs
+  | .ptr (some bs) => "v" ++ hexOfBytes bs
+  | .ptr none => "v~"
+
+def showBatch (b : Batch) : String :=
+  let cols := (b.defs.zip b.cols).map fun (d, c) =>
+    let cells := if c.cells.isEmpty then "-" else ",".intercalate (c.cells.map (showCell c.typ))
+    s!"{d.role.toCode}:{c.typ.toCode}:{hexOfBytes d.name}:{hexOfBytes d.family}:{cells}"
+  " ".intercalate (s!"ok {b.len}" :: cols)
+
+def showDec (r : Res Batch) : String :=
+  match r with
+  | .ok b => showBatch b
+  | .err e => "ERR " ++ errName e
+  | .panic => "PANIC"
+
+def frameEnc (f : List String) : String :=
+  match f with
+  | _ :: cs :: ln :: sel :: cols =>
+    match codecOf cs, ln.toNat?, parseSel sel, cols.mapM parseCol with
+    | some cd, some n, some s, some dc =>
+      let b : Batch := ⟨dc.map (·.1), dc.map (·.2), s, n⟩
+      match encode cd b with
+      | .ok bytes => hexOfBytes bytes ++ " " ++ showDec (decode cd (fun _ => true) bytes)
+      | .err e => "ERR " ++ errName e
+      | .panic => "PANIC"
+    | _, _, _, _ => "bad-op"
+  | _ => "bad-op"
+
+def frameDec (f : List String) : String :=
+  match f with
+  | [_, cs, hx] =>
+    match codecOf cs, hexBytes (String.ofList (hx.toList.drop 1)) with
+    | some cd, some bytes => showDec (decode cd (fun _ => true) bytes)
+    | _, _ => "bad-op"
+  | _ => "bad-op"
+
+/-! dispatch -/
+
+def parseFams (s : String) : List (String × List String) :=
+  if s == "" then [] else
+  (splitC s ';').map fun f =>
+    match splitC f ':' with
+    | [n, tags] => (n, if tags == "" then [] else splitC tags ',')
+    | [n] => (n, [])
+    | _ => (f, [])
+
+def stripType (s : String) : String := (splitC s '.').headD s
+
+def kvOf (f : List String) (k : String) : String :=
+  match f.find? (fun t => t.startsWith (k ++ "=")) with
+  | some t => String.ofList (t.toList.drop (k.length + 1))
+  | none => "-"
+
+def aggFnOf : String → Option AggFn
+  | "SUM" => some .sum | "COUNT" => some .count | "MIN" => some .min | "MAX" => some .max | "MEAN" => some .mean
+  | "UNSPEC" => some .unspecified | _ => none
+
+def showReject : Reject → String
+  | .ctx => "ctx" | .tag n => "tag:" ++ n | .field n => "field:" ++ n | .order => "order" | .crit => "crit"
+  | .gbNoFamily => "gb-nofamily" | .gbMultiFamily => "gb-multifamily" | .gbNoTags => "gb-notags"
+  | .gbFamily => "gb-family" | .gbTag => "gb-tag" | .aggField => "agg-field" | .storage => "storage"
+  | .aggFn => "agg-fn" | .topField => "top-field"
+
+def dispatchLine (f : List String) : String :=
+  let enabled := f.contains "E1"
+  let fams := (parseFams (kvOf f "S")).map fun (n, tags) => (n, tags.map stripType)
+  let fields := let v := kvOf f "F"; if v == "-" || v == "" then [] else (splitC v ',').map stripType
+  let rules := let v := kvOf f "R"; if v == "-" || v == "" then [] else (splitC v ',').filterMap fun r =>
+    match splitC r ':' with
+    | [n, _, ns] => some (n, ns == "1")
+    | _ => none
+  let s : DSchema := ⟨fams, fields, rules⟩
+  let tp := let v := kvOf f "tp"; if v == "-" then none else some (parseFams v)
+  let fp := let v := kvOf f "fp"; if v == "-" then none else some (if v == "" then [] else splitC v ',')
+  let ob := let v := kvOf f "ob"; if v == "-" || v == "" then none else if v == "@time" then some "" else some v
+  let gb := let v := kvOf f "gb"; if v == "-" || v == "" then none else if v == "@empty" then some [] else some (parseFams v)
+  let agg := let v := kvOf f "agg"; if v == "-" || v == "" then some none else
+    match splitC v ':' with
+    | [fn, fld] => (aggFnOf fn).map fun a => some (a, fld)
+    | _ => none
+  let top := let v := kvOf f "top"; if v == "-" || v == "" then none else
+    match splitC v ':' with
+    | [_, fld] => some fld
+    | _ => none
+  match agg with
+  | none => "bad-op"
+  | some agg =>
+    match dispatch ⟨enabled, true, true, true⟩ s ⟨tp, fp, ob, gb, agg, top⟩ with
+    | .fallthrough => "fallthrough"
+    | .accept => "accept"
+    | .reject r => "reject " ++ showReject r
+
+def handle (line : String) : String :=
+  let f := words line
+  match f with
+  | "frame-enc" :: _ => frameEnc f
+  | "frame-dec" :: _ => frameDec f
+  | "dispatch" :: _ => dispatchLine f
+  | "par" :: _ => "skip"
+  | "dist" :: _ => "skip"
+  | "smerge" :: _ => "skip"
+  | _ => "bad-op"
+
+def main : IO Unit := runDriver handle
